@@ -242,6 +242,14 @@ def jobs(tier):
             for k in ks:
                 for crc in ((1, 0) if n <= 100 else (0,)):
                     out.append(dict(func="download", params=dict(n=n, blks=blks, crc=crc, how=how, lose=[k]), weight=n))
+    # two losses: the second one inside the sub-block that carries the retransmission of the first (also the same
+    # segment lost again, also the first segment of that sub-block); without CRC nothing but the client's own
+    # bookkeeping protects the content.  Obligation: a normal return has committed exactly the payload.
+    for n, blks, pairs in ((70, [4], ([1, 5], [1, 4], [2, 6], [1, 6], [3, 4], [3, 7])), (150, [7], ([2, 9], [5, 8], [6, 7]))):
+        for lose in pairs:
+            for crc in (0, 1, 2):
+                out.append(dict(func="download", params=dict(n=n, blks=blks, crc=crc, how="buffered", lose=lose,
+                                                             final_loss=True), weight=n))
     if not q:
         for n in (1, 7, 8, 14, 15, 22, 29, 35):
             for crc in (1, 0):
